@@ -251,8 +251,8 @@ def run_one(m, known):
         failed, tool, _ = driver.classify(G, res)
         if tool:
             return (m, 'undecided', tool[0][:80])
-        hints = [o for o in failed if o not in known and G.obligations[o]['kind'] == 'proof-block']
-        fo = [o for o in failed if o not in known and G.obligations[o]['kind'] != 'proof-block']
+        hints = [o for o in failed if o not in known and G.obligations[o]['kind'] == 'proof-hint']
+        fo = [o for o in failed if o not in known and G.obligations[o]['kind'] != 'proof-hint']
         if not fo and hints:
             return (m, 'undecided', 'only proof hints fail: %s' % hints[:2])
         return (m, 'killed' if fo else 'survived', ','.join(sorted({t for o in fo for t in G.obligations[o]['tags']})))
